@@ -308,6 +308,9 @@ func (oc *OriginCtx) origins(v ssa.Value, seen map[ssa.Value]bool, cur *OInfo, o
 		oc.storesInto(x, seen, cur, out)
 	case *ssa.MakeSlice:
 		oc.storesInto(x, seen, cur, out)
+	case *ssa.Index:
+		// an element of an array value (ranging over a local array of lists)
+		oc.origins(x.X, seen, cur, out)
 	default:
 		mergeInfo(out, "<const>", cur)
 	}
